@@ -690,13 +690,16 @@ def _reuse_workbooks():
     return {'good1': good1, 'good2': good2, 'malformed': malformed, 'unsupported': unsupported, 'unsafe': unsafe, 'cyclic': cyclic}
 
 
-# request = [workbook name, entry or None, safety, how]   how: 'get' | 'write' | 'get2' (ask twice)
+# request = [workbook name, entry or None, safety, how]   how: 'get' | 'write' | 'get_again' / 'write_again' / 'get_then_write' (the
+# request is made twice with no setter call in between; both answers must agree)
 REUSE_REQUESTS = [
     ['good1', None, True, 'get'], ['good1', None, True, 'write'], ['good2', None, True, 'get'], ['malformed', None, True, 'get'],
     ['malformed', None, True, 'write'], ['malformed', [0, 2, 0], True, 'get'], ['malformed', [0, 1, 0], True, 'get'],
     ['unsupported', None, False, 'get'], ['unsafe', None, True, 'get'], ['unsafe', None, False, 'get'], ['unsafe', None, True, 'write'],
     ['cyclic', None, True, 'get'], ['cyclic', [0, 2, 0], True, 'get'], ['good1', ['Second one', 'B', '2'], True, 'get'],
-    ['good1', [0, 1, 0], False, 'get'], ['good2', [0, 1, 0], True, 'get2'], ['good1', [0, 2, 2], True, 'write'],
+    ['good1', [0, 1, 0], False, 'get'], ['good2', [0, 1, 0], True, 'get_again'], ['good1', [0, 2, 2], True, 'write'],
+    ['malformed', None, True, 'get_again'], ['malformed', None, True, 'get_then_write'], ['unsafe', None, True, 'write_again'],
+    ['good1', None, False, 'get_then_write'], ['cyclic', None, False, 'get_again'], ['unsupported', [0, 1, 0], True, 'get_then_write'],
 ]
 
 
@@ -720,22 +723,31 @@ def _examine_reuse(job):
                 parser.disable_safety_check()
             parser.set_excel_file_path(paths[name])
             parser.set_entrypoint_cell(Cell(*entry) if entry is not None else None)
-            if os.path.exists(out):
-                os.remove(out)
-            if how == 'write':
+
+            def once(kind):
+                if kind == 'get':
+                    return _catch(parser.get_translation)
+                if os.path.exists(out):
+                    os.remove(out)
                 st = _catch(parser.write_translation, out)
                 if st[0] == 'ok':
                     with open(out, encoding='utf-8', newline='') as f:
                         st = ('ok', f.read(), st[2])
                 elif os.path.exists(out):
-                    st = ('ok', '<<file written although the request failed>>', st[2])
+                    st = ('ok', '<<a file was written although the request failed>>', st[2])
                 return st
-            st = _catch(parser.get_translation)
-            if how == 'get2' and st[0] == 'ok':
-                st2 = _catch(parser.get_translation)
-                if st2[0] != 'ok' or st2[1] != st[1]:
-                    return ('ok', f'<<second identical request answered differently: {st2[0]}>>', st[2])
-            return st
+            if how in ('get', 'write'):
+                return once(how)
+            # the same request again with no setter call in between: 'get_again', 'write_again', 'get_then_write'
+            first = once('write' if how == 'write_again' else 'get')
+            second = once('get' if how == 'get_again' else 'write')
+            if norm(first) != norm(second):
+                return ('ok', f'<<asked twice without any change: first {brief(norm(first))}, then {brief(norm(second))}>>', first[2])
+            return first
+
+        def brief(x):
+            return x[:1] + [str(v)[:220] if not isinstance(v, str) or len(v) < 60 or v.startswith('<<') else f'text of {len(v)} characters'
+                            for v in x[1:]]
 
         def norm(st):
             if st[0] == 'raised':
@@ -743,14 +755,17 @@ def _examine_reuse(job):
             return [st[0], st[1]]
         for i, req in enumerate(REUSE_REQUESTS):
             alone[i] = norm(ask(Parser(), req, os.path.join(d, 'alone.py')))
+            if job.get('verify_alone'):
+                R.count('parser_reuse')
+                if alone[i][0] == 'ok' and str(alone[i][1]).startswith('<<'):
+                    R.fail('parser_reuse', 'C06.reuse.repeated_request', f'request {req!r} on a new Parser, {alone[i][1]}; expected the same '
+                           'answer (the first one is checked against the workbook)', {'kind': 'reuse', 'sequence': [i]})
         for seq in job['sequences']:
             parser = Parser()
             for pos, i in enumerate(seq):
                 got = norm(ask(parser, REUSE_REQUESTS[i], os.path.join(d, 'seq.py')))
                 R.count('parser_reuse', nontrivial=pos > 0)
                 if got != alone[i]:
-                    def brief(x):
-                        return x[:1] + [str(v)[:60] if not isinstance(v, str) or len(v) < 60 else f'text#{hash(v) % 10000}' for v in x[1:]]
                     prev = REUSE_REQUESTS[seq[pos - 1]] if pos else None
                     tag = ('after_' + (alone[seq[pos - 1]][0] if pos else 'nothing'))
                     R.fail('parser_reuse', f'C06.reuse.{tag}.{alone[i][0]}_becomes_{got[0]}',
@@ -895,7 +910,7 @@ class Gen:
         r = self.rng
         ns = r.choice([1, 1, 2, 2, 3])
         titles = r.sample(TITLES, ns)
-        if index % 7 == 0:
+        if index % 7 == 0 and 'S' not in titles:
             titles[0] = 'S'
         sheets, self.kinds = [], []
         for s in range(ns):
@@ -1003,7 +1018,7 @@ class Gen:
         if which == 'SUM2':
             return f'SUM({a},{b},{rng_})', None
         if which == 'MAX':
-            return f'MAX({rng_},{a})', None
+            return f'MAX({rng_},{a},{r.choice([0, 5])})', None      # a literal: MIN / MAX of nothing but blanks is another property's subject
         if which == 'MIN':
             return f'MIN({a};{b};{r.choice([0, 5])})', None
         if which in ('ROUND', 'ROUNDUP', 'ROUNDDOWN'):
@@ -1078,6 +1093,7 @@ CORPUS = [
 ]
 
 UNSUPPORTED = [
+    '=B1%2', '=A1%B1', '=2%%', '=TRUE1', '=IF(A1="x",B1*2,"y")', '=IF(A1>1,"a","b")&"?"', '="a*\"\"', '="a?\"\"\"', '=COLUMN(C3:E3)+1',
     '=ABS(-1)', '=LEN("abc")', '=NOW()', '=A1^2', '={1,2;3,4}', '=SUM(A1:A3 B1:B3)', '=INDIRECT("A1")', '=1=1=1', '=Table1[Col]', '=[1]Sheet!A1',
     '=@A1', '=A1#', '=LET(x,1,x+1)', '=LAMBDA(x,x+1)(1)', '=1E+3', '=1e+3', '=.5', '=5.', '=1,5', '=#REF!+1', '=#N/A', '=A1:B2:C3', '=A:A:A', '=1:1',
     '=$1:$3', '=SUM(1:1)', '=A0', '=A00', '=AAAA1', '=XFD1048576', '=XFE1', '=A1048577', '=A99999999999999999999', '=ZZZZZZZZ1', '=Nope!A1',
@@ -1229,7 +1245,8 @@ def _chunks(xs, n):
 
 
 def _tasks(tier, seed):
-    rng = random.Random(seed)
+    def stream(name):          # one random stream per component: a change in one does not shift the others
+        return random.Random(f'C06-{seed}-{name}')
     thorough = tier == 'thorough'
     tasks, scope = [], {}
     # long-running first
@@ -1244,7 +1261,7 @@ def _tasks(tier, seed):
     pairs = [list(p) for p in itertools.product(range(n), repeat=2)]
     triples = [list(p) for p in itertools.product(range(n), repeat=3)]
     if not thorough:
-        triples = rng.sample(triples, 600)
+        triples = stream('reuse').sample(triples, 600)
     seqs = pairs + triples
     for i, ch in enumerate(_chunks(seqs, 150)):
         tasks.append(('reuse', {'sequences': ch, 'verify_alone': i == 0}))
@@ -1256,8 +1273,8 @@ def _tasks(tier, seed):
         tasks.append(('spec', sp))
     scope['specials'] = len(specials)
     # generator
-    ngen = 6000 if thorough else 450
-    g = Gen(rng)
+    ngen = 4000 if thorough else 450
+    g = Gen(stream('generator'))
     for i in range(ngen):
         tasks.append(('spec', g.workbook(i)))
     scope['generator'] = ngen
@@ -1273,10 +1290,11 @@ def _tasks(tier, seed):
     bulk = {'unsupported_or_malformed': list(UNSUPPORTED), 'truncated': [], 'edited': [], 'soup': []}
     for f in CORPUS:
         bulk['truncated'] += [f[:k] for k in range(1, len(f))]
-        bulk['edited'] += _mutations(rng, f, 40 if thorough else 4)
+        bulk['edited'] += _mutations(stream('edit' + f), f, 40 if thorough else 4)
     alphabet = SOUP if thorough else SOUP[:40]
     bulk['soup'] += ['=' + a for a in SOUP] + ['=' + a + b for a in alphabet for b in alphabet]
-    nsoup = 60000 if thorough else 1500
+    nsoup = 40000 if thorough else 1500
+    rng = stream('soup')
     for _ in range(nsoup):
         k = rng.choice([3, 3, 4, 4, 5, 6, 7, 8])
         bulk['soup'].append('=' + ''.join(rng.choice(SOUP) for _ in range(k)))
@@ -1339,7 +1357,7 @@ def run(tier='quick', seed=0):
         'entry_point': 'up to 4 formula cells of every generator workbook and the listed cells of the special workbooks requested as '
                        'entry point (int and text coordinates) on a new Parser',
         'parser_reuse': f"{len(REUSE_REQUESTS)} requests (2 good workbooks, malformed, unsupported, unsafe with safety on/off, cyclic; whole-file "
-                        f"and entry; get_translation, write_translation, get twice): all {scope['reuse'][0]} ordered pairs and "
+                        f"and entry; get_translation, write_translation, the same request twice without a setter in between): all {scope['reuse'][0]} ordered pairs and "
                         f"{scope['reuse'][1]} {'(all)' if tier == 'thorough' else '(sampled)'} triples on one Parser",
         'nesting': 'families ' + ', '.join(f'{k} {v}' for k, v in scope['ladders'].items()) + ' (sizes within Excel\'s own limits: 64 levels, '
                    '255 arguments, 8192 characters; reference_chain = column of n cells each reading the one above); a family stops at its '
